@@ -22,7 +22,7 @@ ASSUMPTIONS = ['isosim/dec_boot.py implements El Torito 1.0 as summarised in DES
 
 PROFILE = H.Profile('c11', nops=(4, 24),
                     weights={'add_boot_file': 14, 'add_eltorito': 22, 'rm_eltorito': 4, 'add_fp': 12, 'rm_link': 8, 'rm_file': 4, 'add_link': 5,
-                             'add_dir': 6, 'dup_pvd': 0, 'add_isohybrid': 0, 'add_symlink': 1, 'restart': 6})
+                             'add_dir': 6, 'dup_pvd': 0, 'add_isohybrid': 0, 'add_symlink': 1, 'restart': 6, 'mass_eltorito': 0.6})
 
 MEDIA = {1228800: 1, 1474560: 2, 2949120: 3}
 
@@ -190,6 +190,7 @@ def check_image(ctx, data):
 
 class C11(H.Oracle):
     prop = PROP
+    judge_write_open = True       # an image whose boot catalog the library cannot read back is C11's business too
 
     def before_write(self, ctx):
         # the boot catalog is a file of the image too: read through one of its names while the edits are still
